@@ -15,6 +15,7 @@ for d in ${SEEDS:-seeded/*/}; do
     C16_e) props="C16,C02";; C16_f) props="C16,C14";; C09_f) props="C09,C10";;
     C04_g|C06_g) props="$p,C03";; C04_h|C05_h|C06_h) props="$p,C07";;
     C19_g) props="C19,C02";; C11_g) props="C11,C12";; C16_g|C16_h) props="C16,C20";;
+    C10_h) props="C10,C01";;
   esac
   if [ -z "$SEEDALL_SEED" ]; then
   /venv/bin/python - "$d/meta.json" <<'PY'
